@@ -434,3 +434,12 @@ HL["bignKeyWrap"]["extra"] = lambda sc: [[("token", "key", 0), ("hdr", "key", sc
                                          [("hdr", "token", sc["L"] // 4 + 8)], [("hdr", "token", sc["L"] // 4 + sc["len"])]]
 HL["bignKeyUnwrap"]["extra"] = lambda sc: [[("key", "token", 0)], [("key", "token", sc["tlen"] - 8), ("hdr", "key", 8)],
                                            [("key", "token", sc["L"] // 4)], [("key", "token", sc["tlen"] - 16 - 8)]]
+
+# long lengths for the functions whose length is a free parameter (oracle only: overlapped vs disjoint on the implementation)
+HL["bignKeyWrap"]["long"] = lambda rng, tier: [{"L": 128, "seed": 5, "len": n} for n in ((4097,) if tier == "quick" else (4096, 4097, 8193))]
+HL["bignKeyUnwrap"]["long"] = lambda rng, tier: [{"L": 128, "seed": 5, "len": n, "tlen": 48 + n} for n in ((4097,) if tier == "quick" else (4096, 4097, 8193))]
+HL["bakeKDF"]["long"] = lambda rng, tier: [{"slen": 4097, "ivlen": 1025, "num": 1}]
+HL["belsGenMid"]["long"] = lambda rng, tier: [{"len": 16, "idlen": 4097}]
+HL["u16From"]["long"] = lambda rng, tier: [{"n": 4098}]
+HL["u16To"]["long"] = lambda rng, tier: [{"n": 4098}]
+HL["dstuSign"]["long"] = lambda rng, tier: [{"hashlen": 4097, "i": 0, "ld": 336, "seed": 9}]
